@@ -236,6 +236,10 @@ func TestPropPrograms(t *testing.T) {
 				for i, n := 0, rapid.IntRange(0, 3).Draw(t, "nxs"); i < n; i++ {
 					c.XS = append(c.XS, ev.QStr(str.Draw(t, "x")))
 				}
+				if j == 0 {
+					// one tuple per program with a value around / beyond templ's write-buffer size
+					c.S1 = ev.QStr(longString(t, string(c.S1)))
+				}
 				cases = append(cases, c)
 				jobs = append(jobs, tbatch.Bytes(k, c.args()))
 			}
